@@ -6,6 +6,7 @@ import (
 	"sync/atomic"
 
 	"github.com/honeycombio/refinery/config"
+	"github.com/honeycombio/refinery/internal/simhook"
 )
 
 var _ Metrics = (*MultiMetrics)(nil)
@@ -76,6 +77,7 @@ func (m *MultiMetrics) Register(metadata Metadata) {
 		ch.Register(metadata)
 	}
 
+	simhook.Yield("metrics.Register")
 	// Track the metric type for proper routing in Get()
 	m.metricTypes.Store(metadata.Name, metadata.Type)
 
@@ -101,6 +103,7 @@ func (m *MultiMetrics) Increment(name string) {
 	}
 	// Fast path: try Load first (no allocation for registered metrics)
 	if val, ok := m.counters.Load(name); ok {
+		simhook.Yield("metrics.Increment")
 		val.(*atomic.Uint64).Add(1)
 		return
 	}
@@ -116,6 +119,7 @@ func (m *MultiMetrics) Gauge(name string, val float64) {
 	bits := math.Float64bits(val)
 	// Fast path: try Load first (no allocation for registered metrics)
 	if ptr, ok := m.gauges.Load(name); ok {
+		simhook.Yield("metrics.Gauge")
 		ptr.(*atomic.Uint64).Store(bits)
 		return
 	}
@@ -130,6 +134,7 @@ func (m *MultiMetrics) Count(name string, n int64) {
 	}
 	// Fast path: try Load first (no allocation for registered metrics)
 	if val, ok := m.counters.Load(name); ok {
+		simhook.Yield("metrics.Count")
 		val.(*atomic.Uint64).Add(uint64(n))
 		return
 	}
@@ -150,6 +155,7 @@ func (m *MultiMetrics) Up(name string) {
 	}
 	// Fast path: try Load first (no allocation for registered metrics)
 	if val, ok := m.updowns.Load(name); ok {
+		simhook.Yield("metrics.Up")
 		val.(*atomic.Int64).Add(1)
 		return
 	}
@@ -164,6 +170,7 @@ func (m *MultiMetrics) Down(name string) {
 	}
 	// Fast path: try Load first (no allocation for registered metrics)
 	if val, ok := m.updowns.Load(name); ok {
+		simhook.Yield("metrics.Down")
 		val.(*atomic.Int64).Add(-1)
 		return
 	}
@@ -173,6 +180,7 @@ func (m *MultiMetrics) Down(name string) {
 }
 
 func (m *MultiMetrics) Get(name string) (float64, bool) {
+	simhook.Yield("metrics.Get")
 	// First check if this is a stored value (not a registered metric)
 	if val, ok := m.stores.Load(name); ok {
 		bits := val.(*atomic.Uint64).Load()
